@@ -314,71 +314,9 @@ func (p *Parser) parseOuterTemplate() ([]Node, error) {
 
 // Parse an expression
 func (p *Parser) parseExpression() (Node, error) {
-	// Parse the primary expression first
-	expr, err := p.parseSimpleExpression()
+	expr, err := p.parseBinaryPrec(PREC_OR)
 	if err != nil {
 		return nil, err
-	}
-
-	// Check for array access with square brackets
-	for p.tokenIndex < len(p.tokens) &&
-		p.tokens[p.tokenIndex].Type == TOKEN_PUNCTUATION &&
-		p.tokens[p.tokenIndex].Value == "[" {
-
-		// Get the line number for error reporting
-		line := p.tokens[p.tokenIndex].Line
-
-		// Skip the opening bracket
-		p.tokenIndex++
-
-		// Parse the index expression
-		indexExpr, err := p.parseExpression()
-		if err != nil {
-			return nil, err
-		}
-
-		// Expect closing bracket
-		if p.tokenIndex >= len(p.tokens) ||
-			p.tokens[p.tokenIndex].Type != TOKEN_PUNCTUATION ||
-			p.tokens[p.tokenIndex].Value != "]" {
-			return nil, fmt.Errorf("expected closing bracket after array index at line %d", line)
-		}
-		p.tokenIndex++ // Skip closing bracket
-
-		// Create a GetItemNode
-		expr = NewGetItemNode(expr, indexExpr, line)
-	}
-
-	// Now check for filter operator (|)
-	// Process all filters in a loop to handle consecutive filters properly
-	for p.tokenIndex < len(p.tokens) &&
-		p.tokens[p.tokenIndex].Type == TOKEN_PUNCTUATION &&
-		p.tokens[p.tokenIndex].Value == "|" {
-
-		expr, err = p.parseFilters(expr)
-		if err != nil {
-			return nil, err
-		}
-	}
-
-	// Check for binary operators (and, or, ==, !=, <, >, etc.)
-	// Loop to handle multiple binary operators in sequence, such as 'hello' ~ ' ' ~ 'world'
-	for p.tokenIndex < len(p.tokens) &&
-		(p.tokens[p.tokenIndex].Type == TOKEN_OPERATOR ||
-			(p.tokens[p.tokenIndex].Type == TOKEN_NAME &&
-				(p.tokens[p.tokenIndex].Value == "and" ||
-					p.tokens[p.tokenIndex].Value == "or" ||
-					p.tokens[p.tokenIndex].Value == "in" ||
-					p.tokens[p.tokenIndex].Value == "not" ||
-					p.tokens[p.tokenIndex].Value == "is" ||
-					p.tokens[p.tokenIndex].Value == "matches" ||
-					p.tokens[p.tokenIndex].Value == "starts" ||
-					p.tokens[p.tokenIndex].Value == "ends"))) {
-
-		expr, err = p.parseBinaryExpression(expr)
-		if err != nil {
-			return nil, err
-		}
 	}
 
 	// Check for ternary operator (? :)
@@ -390,6 +328,138 @@ func (p *Parser) parseExpression() (Node, error) {
 	}
 
 	return expr, nil
+}
+
+// parseOperand parses a simple expression followed by any [index] and |filter suffixes
+func (p *Parser) parseOperand() (Node, error) {
+	expr, err := p.parseSimpleExpression()
+	if err != nil {
+		return nil, err
+	}
+
+	for p.tokenIndex < len(p.tokens) && p.tokens[p.tokenIndex].Type == TOKEN_PUNCTUATION {
+		if p.tokens[p.tokenIndex].Value == "[" {
+			line := p.tokens[p.tokenIndex].Line
+			p.tokenIndex++
+			indexExpr, err := p.parseExpression()
+			if err != nil {
+				return nil, err
+			}
+			if p.tokenIndex >= len(p.tokens) ||
+				p.tokens[p.tokenIndex].Type != TOKEN_PUNCTUATION ||
+				p.tokens[p.tokenIndex].Value != "]" {
+				return nil, fmt.Errorf("expected closing bracket after array index at line %d", line)
+			}
+			p.tokenIndex++
+			expr = NewGetItemNode(expr, indexExpr, line)
+		} else if p.tokens[p.tokenIndex].Value == "|" {
+			expr, err = p.parseFilters(expr)
+			if err != nil {
+				return nil, err
+			}
+		} else {
+			break
+		}
+	}
+	return expr, nil
+}
+
+// peekBinaryOperator returns the binary operator at the current position and
+// the number of tokens it spans
+func (p *Parser) peekBinaryOperator() (string, int, bool) {
+	if p.tokenIndex >= len(p.tokens) {
+		return "", 0, false
+	}
+	token := p.tokens[p.tokenIndex]
+	if token.Type == TOKEN_OPERATOR {
+		return token.Value, 1, true
+	}
+	if token.Type != TOKEN_NAME {
+		return "", 0, false
+	}
+	next := ""
+	if p.tokenIndex+1 < len(p.tokens) && p.tokens[p.tokenIndex+1].Type == TOKEN_NAME {
+		next = p.tokens[p.tokenIndex+1].Value
+	}
+	switch token.Value {
+	case "and", "or", "in", "matches":
+		return token.Value, 1, true
+	case "not":
+		if next == "in" {
+			return "not in", 2, true
+		}
+		if next == "defined" {
+			return "not defined", 2, true
+		}
+	case "is":
+		if next == "not" {
+			return "is not", 2, true
+		}
+		return "is", 1, true
+	case "starts":
+		if next == "with" {
+			return "starts with", 2, true
+		}
+	case "ends":
+		if next == "with" {
+			return "ends with", 2, true
+		}
+	}
+	return "", 0, false
+}
+
+// parseBinaryPrec parses binary operators of at least the given precedence (precedence climbing)
+func (p *Parser) parseBinaryPrec(minPrec int) (Node, error) {
+	left, err := p.parseOperand()
+	if err != nil {
+		return nil, err
+	}
+
+	for {
+		operator, width, ok := p.peekBinaryOperator()
+		if !ok {
+			break
+		}
+		line := p.tokens[p.tokenIndex].Line
+
+		if operator == "not defined" {
+			p.tokenIndex += width
+			left = &UnaryNode{
+				ExpressionNode: ExpressionNode{exprType: ExprUnary, line: line},
+				operator:       "not",
+				node: &TestNode{
+					ExpressionNode: ExpressionNode{exprType: ExprTest, line: line},
+					node:           left,
+					test:           "defined",
+					args:           []Node{},
+				},
+			}
+			continue
+		}
+
+		precedence := getOperatorPrecedence(operator)
+		if precedence == PREC_LOWEST || precedence < minPrec {
+			break
+		}
+		p.tokenIndex += width
+
+		if (operator == "is" || operator == "is not") &&
+			p.tokenIndex < len(p.tokens) && p.tokens[p.tokenIndex].Type == TOKEN_NAME {
+			left, err = p.parseTest(left, operator, line)
+			if err != nil {
+				return nil, err
+			}
+			continue
+		}
+
+		right, err := p.parseBinaryPrec(precedence + 1)
+		if err != nil {
+			return nil, err
+		}
+		left = NewBinaryNode(operator, left, right, line)
+	}
+
+	return left, nil
 }
 
 // Parse ternary conditional expression (condition ? true_expr : false_expr)
@@ -648,37 +718,6 @@ func (p *Parser) parseSimpleExpression() (Node, error) {
 		// Handle parenthesized expressions
 		if token.Value == "(" {
 			p.tokenIndex++ // Skip "("
-
-			// Check for unary operator immediately after opening parenthesis
-			if p.tokenIndex < len(p.tokens) &&
-				p.tokens[p.tokenIndex].Type == TOKEN_OPERATOR &&
-				(p.tokens[p.tokenIndex].Value == "-" || p.tokens[p.tokenIndex].Value == "+") {
-
-				// Handle unary operation inside parentheses
-				unaryToken := p.tokens[p.tokenIndex]
-				operator := unaryToken.Value
-				line := unaryToken.Line
-				p.tokenIndex++ // Skip the operator
-
-				// Parse the operand
-				operand, err := p.parseExpression()
-				if err != nil {
-					return nil, err
-				}
-
-				// Create a unary node
-				expr := NewUnaryNode(operator, operand, line)
-
-				// Expect closing parenthesis
-				if p.tokenIndex >= len(p.tokens) ||
-					p.tokens[p.tokenIndex].Type != TOKEN_PUNCTUATION ||
-					p.tokens[p.tokenIndex].Value != ")" {
-					return nil, fmt.Errorf("expected closing parenthesis at line %d", token.Line)
-				}
-				p.tokenIndex++ // Skip ")"
-
-				return expr, nil
-			}
 
 			// Regular parenthesized expression
 			expr, err := p.parseExpression()
@@ -941,82 +980,10 @@ func getOperatorPrecedence(operator string) int {
 	}
 }
 
-// Parse binary expressions (a + b, a and b, a in b, etc.)
-func (p *Parser) parseBinaryExpression(left Node) (Node, error) {
-	token := p.tokens[p.tokenIndex]
-	operator := token.Value
-	line := token.Line
-
-	// Special handling for "not defined" pattern
-	// This is the common pattern used in Twig: {% if variable not defined %}
-	if operator == "not" && p.tokenIndex+1 < len(p.tokens) &&
-		p.tokens[p.tokenIndex+1].Type == TOKEN_NAME &&
-		p.tokens[p.tokenIndex+1].Value == "defined" {
-
-		// Next token should be "defined"
-		p.tokenIndex += 2 // Skip both "not" and "defined"
-
-		// Create a TestNode with "defined" test
-		testNode := &TestNode{
-			ExpressionNode: ExpressionNode{
-				exprType: ExprTest,
-				line:     line,
-			},
-			node: left,
-			test: "defined",
-			args: []Node{},
-		}
-
-		// Then wrap it in a unary "not" node
-		return &UnaryNode{
-			ExpressionNode: ExpressionNode{
-				exprType: ExprUnary,
-				line:     line,
-			},
-			operator: "not",
-			node:     testNode,
-		}, nil
-	}
-
-	// Process multi-word operators
-	if token.Type == TOKEN_NAME {
-		// Handle 'not in' operator
-		if token.Value == "not" && p.tokenIndex+1 < len(p.tokens) &&
-			p.tokens[p.tokenIndex+1].Type == TOKEN_NAME &&
-			p.tokens[p.tokenIndex+1].Value == "in" {
-			operator = "not in"
-			p.tokenIndex += 2 // Skip both 'not' and 'in'
-		} else if token.Value == "is" && p.tokenIndex+1 < len(p.tokens) &&
-			p.tokens[p.tokenIndex+1].Type == TOKEN_NAME &&
-			p.tokens[p.tokenIndex+1].Value == "not" {
-			// Handle 'is not' operator
-			operator = "is not"
-			p.tokenIndex += 2 // Skip both 'is' and 'not'
-		} else if token.Value == "starts" && p.tokenIndex+1 < len(p.tokens) &&
-			p.tokens[p.tokenIndex+1].Type == TOKEN_NAME &&
-			p.tokens[p.tokenIndex+1].Value == "with" {
-			// Handle 'starts with' operator
-			operator = "starts with"
-			p.tokenIndex += 2 // Skip both 'starts' and 'with'
-		} else if token.Value == "ends" && p.tokenIndex+1 < len(p.tokens) &&
-			p.tokens[p.tokenIndex+1].Type == TOKEN_NAME &&
-			p.tokens[p.tokenIndex+1].Value == "with" {
-			// Handle 'ends with' operator
-			operator = "ends with"
-			p.tokenIndex += 2 // Skip both 'ends' and 'with'
-		} else {
-			// Single word operators like 'is', 'and', 'or', 'in', 'matches'
-			p.tokenIndex++ // Skip the operator token
-		}
-	} else {
-		// Regular operators like +, -, *, /, etc.
-		p.tokenIndex++ // Skip the operator token
-	}
-
-	// Handle 'is' followed by a test
-	if operator == "is" || operator == "is not" {
-		// Check if this is a test
-		if p.tokenIndex < len(p.tokens) && p.tokens[p.tokenIndex].Type == TOKEN_NAME {
+// parseTest parses the test name and arguments after 'is' / 'is not'
+func (p *Parser) parseTest(left Node, operator string, line int) (Node, error) {
+	{
+		{
 			testName := p.tokens[p.tokenIndex].Value
 			p.tokenIndex++ // Skip the test name
 
@@ -1091,81 +1058,6 @@ func (p *Parser) parseBinaryExpression(left Node) (Node, error) {
 			return test, nil
 		}
 	}
-
-	// If we get here, we have a regular binary operator
-
-	// Get precedence of current operator
-	precedence := getOperatorPrecedence(operator)
-
-	// Parse the right side expression
-	right, err := p.parseSimpleExpression()
-	if err != nil {
-		return nil, err
-	}
-
-	// Create the current binary node
-	binaryNode := NewBinaryNode(operator, left, right, line)
-
-	// Check for another binary operator
-	if p.tokenIndex < len(p.tokens) &&
-		(p.tokens[p.tokenIndex].Type == TOKEN_OPERATOR ||
-			(p.tokens[p.tokenIndex].Type == TOKEN_NAME &&
-				(p.tokens[p.tokenIndex].Value == "and" ||
-					p.tokens[p.tokenIndex].Value == "or" ||
-					p.tokens[p.tokenIndex].Value == "in" ||
-					p.tokens[p.tokenIndex].Value == "not" ||
-					p.tokens[p.tokenIndex].Value == "is" ||
-					p.tokens[p.tokenIndex].Value == "matches" ||
-					p.tokens[p.tokenIndex].Value == "starts" ||
-					p.tokens[p.tokenIndex].Value == "ends"))) {
-
-		// Get the next operator and its precedence
-		nextOperator := p.tokens[p.tokenIndex].Value
-		if p.tokens[p.tokenIndex].Type == TOKEN_NAME {
-			// Handle multi-word operators
-			if nextOperator == "not" && p.tokenIndex+1 < len(p.tokens) &&
-				p.tokens[p.tokenIndex+1].Type == TOKEN_NAME &&
-				p.tokens[p.tokenIndex+1].Value == "in" {
-				nextOperator = "not in"
-			} else if nextOperator == "is" && p.tokenIndex+1 < len(p.tokens) &&
-				p.tokens[p.tokenIndex+1].Type == TOKEN_NAME &&
-				p.tokens[p.tokenIndex+1].Value == "not" {
-				nextOperator = "is not"
-			} else if nextOperator == "starts" && p.tokenIndex+1 < len(p.tokens) &&
-				p.tokens[p.tokenIndex+1].Type == TOKEN_NAME &&
-				p.tokens[p.tokenIndex+1].Value == "with" {
-				nextOperator = "starts with"
-			} else if nextOperator == "ends" && p.tokenIndex+1 < len(p.tokens) &&
-				p.tokens[p.tokenIndex+1].Type == TOKEN_NAME &&
-				p.tokens[p.tokenIndex+1].Value == "with" {
-				nextOperator = "ends with"
-			}
-		}
-
-		nextPrecedence := getOperatorPrecedence(nextOperator)
-
-		// If the next operator has higher precedence, we need to parse it first
-		if nextPrecedence > precedence {
-			// Replace the right side with a binary expression
-			newRight, err := p.parseBinaryExpression(right)
-			if err != nil {
-				return nil, err
-			}
-
-			// Update the binary node with the new right side
-			binaryNode = NewBinaryNode(operator, left, newRight, line)
-		}
-	}
-
-	// Check for ternary operator after parsing the binary expression
-	if p.tokenIndex < len(p.tokens) &&
-		p.tokens[p.tokenIndex].Type == TOKEN_PUNCTUATION &&
-		p.tokens[p.tokenIndex].Value == "?" {
-		// This is a conditional expression, use the binary node as the condition
-		return p.parseConditionalExpression(binaryNode)
-	}
-
-	return binaryNode, nil
 }
 
 // parseEndTag handles closing tags like endif, endfor, endblock, etc.
